@@ -428,6 +428,24 @@ def run_selection(col, cell_type, elname, nnodes):
             if len(got["tangents"]) != len(ref["tangents"]) or any(not same(a, b) for a, b in zip(got["tangents"], ref["tangents"])):
                 bad.append("%s: tangents" % how)
         return not bad, "region/_boundary.py RegionBoundary (inherits Region.reload / copy / astype): differs from the freshly built region in %s" % bad
+    def chk_callback():
+        # the documented way to move a mesh under an existing region: mesh.update(points=..., callback=region.reload) -- the callback receives
+        # the (volume) mesh.  The surface region then has to describe the surface of the moved mesh
+        vm = mesh.copy()
+        reg = it.call(it.get("felupe.region._templates:" + TEMPLATE), [vm], dict(only_surface=True))
+        moved = npmodel.to_obj(points).copy()
+        moved[:, 0] = moved[:, 0] * 2
+        vm.update(points=moved)
+        it.call_method(reg, "reload", [vm], {})
+        fresh = it.call(it.get("felupe.region._templates:" + TEMPLATE), [ConcreteMesh(moved, cells, cell_type)], dict(only_surface=True))
+        bad = []
+        for nm in ("dA", "dV", "normals"):
+            a, b = npmodel.to_obj(np.asarray(it.getattr(reg, nm))), npmodel.to_obj(np.asarray(it.getattr(fresh, nm)))
+            if a.shape != b.shape or any(abs(ring.const_decimal(P(x) - P(y))) > ring._SEP for x, y in zip(a.reshape(-1), b.reshape(-1))):
+                bad.append(nm)
+        return not bad, "region/_boundary.py RegionBoundary.reload(mesh): %s are not those of the surface of the moved mesh (the region's boundary cells are replaced by the cells of the mesh handed in)" % bad
+    col.check("C13.O6", "%s:mesh-update-callback" % TEMPLATE,
+              "after mesh.update(points=..., callback=region.reload) the area vectors, their norms and the normals are those of a surface region built on the moved mesh", chk_callback)
     col.check("C13.O6", "%s surface region re-evaluated (%s)" % (cell_type, TEMPLATE),
               "after copy(), astype() or reload() the area vectors, their norms dV, the unit normals and the tangents are those of a freshly built surface region of the same mesh", chk_recompute)
     col.check("C13.O5", "%s closure on a distorted two-cell mesh (%s, default rule)" % (cell_type, TEMPLATE),
